@@ -1,18 +1,34 @@
 #!/bin/bash
-# Rebuilds the explorer and the two jd CLIs from /repo's current working tree. Offline.
+# Rebuilds the explorer and the two jd CLIs from the repository's current working tree. Offline.
+# JD_REPO (default /repo) selects the tree; a non-default tree gets its own build directory so
+# that seeded changes can be exercised in scratch worktrees without touching /repo.
 set -e
 VERIF_DIR="$(cd "$(dirname "$0")" && pwd)"
 export GOFLAGS=-mod=mod GOPROXY=off
 unset GOSUMDB GOTOOLCHAIN || true
+REPO="${JD_REPO:-/repo}"
 W="$VERIF_DIR/.work"
-mkdir -p "$W/bin" "$W/tmp"
+BIN="$W/bin"
+MODFLAG=""
+if [ "$REPO" != "/repo" ]; then
+  TAG="$(echo -n "$REPO" | md5sum | cut -c1-10)"
+  BIN="$W/bin-$TAG"
+fi
+mkdir -p "$BIN" "$W/tmp"
 (
   flock 9
   cd "$VERIF_DIR/mc"
-  cat /repo/go.sum /repo/v2/go.sum | sort -u > go.sum.new
-  cmp -s go.sum.new go.sum || cp go.sum.new go.sum
-  rm -f go.sum.new
-  go build -o "$W/bin/jdmc" . 
-  (cd /repo/v2 && go build -o "$W/bin/jd-v2" ./jd)
-  (cd /repo && go build -o "$W/bin/jd-top" .)
+  if [ "$REPO" = "/repo" ]; then
+    cat /repo/go.sum /repo/v2/go.sum | sort -u > go.sum.new
+    cmp -s go.sum.new go.sum || cp go.sum.new go.sum
+    rm -f go.sum.new
+    go build -o "$BIN/jdmc" .
+  else
+    sed "s#=> /repo/v2#=> $REPO/v2#; s#=> /repo\$#=> $REPO#" go.mod > "$BIN/alt.mod"
+    cat "$REPO/go.sum" "$REPO/v2/go.sum" | sort -u > "$BIN/alt.sum"
+    go build -modfile="$BIN/alt.mod" -o "$BIN/jdmc" .
+  fi
+  (cd "$REPO/v2" && go build -o "$BIN/jd-v2" ./jd)
+  (cd "$REPO" && go build -o "$BIN/jd-top" .)
 ) 9>"$W/build.lock"
+echo "$BIN"
